@@ -24,6 +24,7 @@ def main(tier, seed):
     items += fam_seq.entry_binding(seed, tier)
     items += fam_seq.misc(seed, tier)
     items += fam_seq.computed_casts(seed, tier)[::3 if quick else 1]
+    items += fam_seq.wide_constants()
     items += fam_seq.expr_trees(seed, tier)           # every two-operator tree over nine kinds of leaves
     # minimum + 1 word stacks for a few programs
     n_tight = 8 if quick else 60
